@@ -5,5 +5,5 @@ set -u
 d=/verif/seeded/$1; c=$2; t=${3:-quick}
 [ -z "$(git -C /repo status --short)" ] || { echo "/repo not clean"; exit 2; }
 git -C /repo apply "$d/patch.diff" || exit 2
-cd /verif && ./check "$c" --tier "$t" 2>&1 | grep -E "^(OK|VIOLATION|KNOWN)" | head -4
+cd /verif && VERIF_EVIDENCE_DIR=/verif/.build/evidence-seeded ./check "$c" --tier "$t" 2>&1 | grep -E "^(OK|VIOLATION|KNOWN)" | head -4
 git -C /repo checkout -- .
